@@ -287,4 +287,19 @@ example : (∀ s ∈ exStrata, ∀ r ∈ s.2, r.pi = s.1 ∧ r.a * r.a = r.a ∧
     stratifiedPsi exStrata = 23/7 := by
   norm_num [exStrata, sumBy, nth, wTrt, wUnt, wTot, yTrt, yUnt, stratifiedPsi]
 
+/-- `one_param_saturated` applied: the closed form on the concatenated strata is the stratified average 23/7 -/
+example : closedForm (exStrata.flatMap (·.2)) 1 = some [23/7] := by
+  have h := one_param_saturated (exStrata.flatMap (·.2)) exStrata (List.Perm.refl _)
+    (by norm_num [exStrata, nth]) (by norm_num [exStrata, sumBy]) (by norm_num [exStrata, sumBy, wTrt, wUnt])
+    (by norm_num [exStrata, sumBy, wTot])
+  rw [h]
+  norm_num [exStrata, sumBy, wTrt, wUnt, wTot, yTrt, yUnt, stratifiedPsi]
+
+/-- `root_unique` applied: psi = 39/11 is a root for p = 1, hence it is the closed form -/
+example : closedForm exRows 1 = some [39/11] :=
+  root_unique exRows 1 [39/11] (by decide +kernel) (Or.inl rfl) rfl
+    (by norm_num [detLhm, lhm, sumBy, snmCol, dW, nth, exRows])
+    (by intro j hj; obtain rfl : j = 0 := by omega
+        norm_num [estEq, hpsi, sumBy, snmCol, dW, nth, exRows, List.range_succ])
+
 end ZV.P15
